@@ -473,8 +473,25 @@ def collect_variable_lookup(
     # Condition-specific kwargs
     ##
 
+    try:
+        condition_signature = inspect.signature(condition)  # type: Optional[inspect.Signature]
+    except (TypeError, ValueError):
+        condition_signature = None
+
     if resolved_kwargs is not None:
-        variable_lookup.append(resolved_kwargs)
+        if condition_signature is None:
+            variable_lookup.append(resolved_kwargs)
+        else:
+            # Only the parameters of the condition are bound to the arguments of the call. A name which the condition
+            # does not take as a parameter refers to a closure or a global variable, even if the function
+            # has an argument with the same name.
+            variable_lookup.append(
+                {
+                    key: value
+                    for key, value in resolved_kwargs.items()
+                    if key in condition_signature.parameters
+                }
+            )
 
     ##
     # Add the default values of the condition's own parameters
@@ -482,11 +499,6 @@ def collect_variable_lookup(
     ##
 
     defaults_dict = dict()  # type: Dict[str, Any]
-
-    try:
-        condition_signature = inspect.signature(condition)  # type: Optional[inspect.Signature]
-    except (TypeError, ValueError):
-        condition_signature = None
 
     if condition_signature is not None:
         for param in condition_signature.parameters.values():
